@@ -151,6 +151,25 @@ def straight_reach(body, frm, target):
     return False
 
 
+def nearest_common_dominator(body, a, b):
+    dom = body.dominators()
+    if a not in dom or b not in dom:
+        return None
+    common = dom[a] & dom[b]
+    return max(common, key=lambda n: len(dom[n])) if common else None
+
+
+def alternatives(body, err_block, ok_block):
+    """err_block and ok_block are the two outcomes of one decision: their nearest common dominator is a branch,
+    and the error block cannot continue to the ok block"""
+    n = nearest_common_dominator(body, err_block, ok_block)
+    if n is None or n in (err_block,):
+        return False
+    if body.blocks[n]["term"]["k"] != "SwitchInt":
+        return False
+    return not body.paths_avoiding(err_block, [ok_block], [])
+
+
 def loop_of(body, block):
     """(header, set(body blocks)) of the innermost natural loop containing block, or None"""
     best = None
